@@ -706,6 +706,7 @@ func main() {
 		sockStage()
 		slowWriterStage()
 		readdirStage()
+		sharedHostFileStage()
 		hostStage(*hx.Work)
 		emStage(r)
 		per, nops := 200, 40
